@@ -65,10 +65,20 @@ class PW(Worker):
             raise (FalsyPreErr if self._pre_fail[key] % 4 == 1 else PreErr)(self._pre_fail[key])
         return x
 
+    def _deep(self, key):
+        raise ValueError(f'cannot parse {key}')
+
     def _one(self, x):
         key = payload_key(x)
         if isinstance(key, int) and key in self._fail:
-            raise (FalsyStageErr if self._fail[key] % 4 == 3 else StageErr)(self._fail[key])
+            code = self._fail[key]
+            if code % 4 == 2:
+                # error translation: the failure site is one level down, the exception that leaves the worker is chained to it
+                try:
+                    self._deep(key)
+                except ValueError as e:
+                    raise StageErr(code) from e
+            raise (FalsyStageErr if code % 4 == 3 else StageErr)(code)
         y = leaf_fn(self._k, x)
         if self._shrink and isinstance(y, tuple):
             y = y[0]
